@@ -383,7 +383,9 @@ def c39(ctx):
     harness_trouble = []
     for b, recs in [(x, recs1) for x in bad1] + [(x, recs2) for x in bad2]:
         real = [c for c in b["complaints"] if not c.startswith("harness:") and c != "incomplete"]
-        if not real:
+        # a run that did not get through its script (harness: ... / incomplete) proves nothing about the
+        # listener: the derived differences (packets-differ, reply-differs) are not judged on it
+        if not real or any(c.startswith("harness:") or c == "incomplete" for c in b["complaints"]):
             harness_trouble.append((b["id"], b["complaints"]))
             continue
         if len(ctx.violations) < 10:
